@@ -166,6 +166,20 @@ impl<'a> Ctx<'a> {
 			}
 			o => out.push(outcome_viol("slp_write", &cls, &o)),
 		}
+		// the same file arriving in short reads: still read, still written back identically
+		let frag = if self.built.bytes.len() % 2 == 0 { crate::stream::Frag::Random(self.built.bytes.len() as u64) } else { crate::stream::Frag::Fixed(1 + self.built.bytes.len() % 6) };
+		let mut r = crate::stream::FragReader::new(&self.built.bytes, frag.clone());
+		match guard(|| slippi::read(&mut r, None)) {
+			Outcome::Ok(g2) => match real::write_slp(&g2) {
+				Outcome::Ok(w) => {
+					if let Some(i) = first_diff(&w, &self.built.bytes) {
+						out.push(viol("slp_roundtrip_fragmented", &cls, "mismatch", format!("read through {:?}: written file differs at byte {}", frag, i)));
+					}
+				}
+				o => out.push(outcome_viol("slp_roundtrip_fragmented", &cls, &o)),
+			},
+			o => out.push(viol("slp_roundtrip_fragmented", &cls, o.kind(), format!("{:?}: {}", frag, o.detail()))),
+		}
 	}
 
 	/// C03: every exposed column (in memory, Arrow view, row view) holds the value at the TLA+
